@@ -669,8 +669,18 @@ def lattice_witness(rec, prog, ensure_name, cap=20000):
     return None
 
 
+CONFIRMED_FAILS = {}
+
+
 def check_path(prop, prog, meta, rec, timeout):
     """-> list of Ob for one dumped path"""
+    res = _check_path(prop, prog, meta, rec, timeout)
+    n = sum(1 for o in res[0] if o.status == FAILED and not o.no_input)
+    if n: CONFIRMED_FAILS[prog] = CONFIRMED_FAILS.get(prog, 0) + n
+    return res
+
+
+def _check_path(prop, prog, meta, rec, timeout):
     obs = []
     ctx = Ctx(rec)
     mode, path = rec["mode"], rec["path"]
@@ -690,6 +700,13 @@ def check_path(prop, prog, meta, rec, timeout):
             o.backend = "hash-consed term identity"; o.status = DISCHARGED
             obs.append(o)
         return obs, {"feasible": None, "path": base}
+    # budget: once a program has three obligations that failed WITH an input replayed on the real code, its remaining
+    # paths are not sent to the solvers (the check already exits 1; hundreds of paths of a broken function would each
+    # cost the full solver timeout). They are reported undecided, never discharged.
+    if CONFIRMED_FAILS.get(prog, 0) >= 3:
+        o = Ob("%s.skipped" % base, "smt", "complete", meta["func"], meta["desc"])
+        o.detail = "not attempted: three obligations of this program already failed with a replayed counterexample"
+        return [o], {"feasible": None, "path": base}
     # translate everything first (collects the uninterpreted applications)
     for r in roots: ctx.t(r)
     for c in rec["assumes"]: ctx.t(c)
